@@ -111,7 +111,7 @@ def run(res, tier, seed):
                     if style == "dyadic" and mid.denominator == 1:
                         qs.append(int(mid))
             for s in qs:
-                for th in ([7, rng.choice([Fraction(1, 2), 1, 3, 30])] if tier == "quick" else [Fraction(1, 2), 1, 3, 7, 30]):
+                for th in ([7, rng.choice([Fraction(1, 2), 1, 3, 30, 0, 0])] if tier == "quick" else [0, Fraction(1, 2), 1, 3, 7, 30]):
                     ss = [s]
                     # exact threshold edge for dyadic files
                     if style == "dyadic":
